@@ -341,7 +341,11 @@ func c16Invalidations() []invDev {
 	for _, k := range []struct {
 		n string
 		k any
-	}{{"float", 1.5}, {"bool", true}, {"struct", struct{ A int }{1}}, {"nil", nil}, {"byte-slice", []byte{1}}, {"map", map[string]int{"a": 1}}, {"pointer", new(int)}} {
+	}{{"float", 1.5}, {"bool", true}, {"struct", struct{ A int }{1}}, {"nil", nil}, {"byte-slice", []byte{1}}, {"map", map[string]int{"a": 1}}, {"pointer", new(int)},
+		// keys whose *type* is comparable while the value is not (a slice or a map behind an interface): using one as a map key panics
+		{"array-of-interface-holding-a-byte-slice", [1]any{[]byte("x")}}, {"struct-with-an-interface-field-holding-a-slice", struct{ Label any }{[]string{"x"}}},
+		{"array-of-interface-holding-a-map", [2]any{1, map[string]int{"a": 1}}}, {"array-of-ints", [2]int{1, 2}}, {"empty-struct", struct{}{}}, {"func", func() {}}, {"channel", make(chan int)},
+		{"complex", complex(1, 2)}, {"named-string-type", c16NamedString("io.example.named")}, {"named-int-type", c16NamedInt(1000)}} {
 		k := k
 		post("cose-ext-key-type-"+k.n, "ext", "cose", "", func(r *reqSpec, req *signature.SignRequest, rs *envenc.RemoteSigner) {
 			req.ExtendedSignedAttributes = []signature.Attribute{attr(k.k, false, "v")}
@@ -598,3 +602,6 @@ func init() {
 		BudgetS: [2]int{150, 1500},
 	})
 }
+
+type c16NamedString string
+type c16NamedInt int64
